@@ -3,7 +3,7 @@ import itertools
 
 from ..env import np, puan, pg
 from .. import ref, families
-from ..ast import bind, leaves_of, compounds_of, show
+from ..ast import bind, leaves_of, compounds_of, show, walk, is_var, arith_eval_obj
 
 ID = "C03"
 RULE = ("Mode G: every raw AtLeast model of the named families (depth<=2, <=2(3) children, both signs, all relevant "
@@ -41,6 +41,79 @@ THOROUGH = QUICK + ["abct/explicit", "abcdt/explicit", "abu/explicit/w3", "abt/e
                     "abtn/explicit", "abt/generated", "abt/root"]
 THOROUGH_OVR = [("ovr2", "abc/explicit"), ("ovr2", "diamond/explicit"), ("ovr2", "abc/generated"), ("ovr2", "abt/explicit"),
                 ("ovr1", "fixed/abc"), ("ovr2", "d3/abc/explicit"), ("ovr1", "diamond/generated"), ("ovr1", "abct/explicit")]
+
+
+DERIVED_QUICK = ["abc/explicit", "at/explicit", "mix3/abt/explicit", "diamond/explicit"]
+DERIVED_THOROUGH = DERIVED_QUICK + ["abt/explicit", "abc/generated", "d3/ab/explicit", "alt/mix3b+abt+explicit"]
+
+
+def check_derived(m, acc, fam, k, only=None):
+    """Objects that did not come straight out of a constructor: negate(), Not(.), negate().negate(), Imply(., z), assume({}) and reduce()
+    of every model. Such objects have no AST of their own, so the oracle is the arithmetic truth function over the LIVE object's own
+    sign / value / children (mc/ast.py arith_eval_obj): every node of the derived object, on every total assignment, must evaluate to
+    sign * sum(children) >= value."""
+    case0 = {"fam": fam, "k": k, "ast": m, "mode": "derived"}
+    try:
+        obj, _ = bind(m)
+        if is_var(obj) or obj.errors():
+            return
+    except BaseException as e:
+        acc.violation(None, case0, {"what": "construction raised", "exc": repr(e)})
+        return
+    makers = [("negate", lambda o: o.negate()), ("Not", lambda o: pg.Not(o)), ("negate.negate", lambda o: o.negate().negate()),
+              ("Imply(.,z)", lambda o: pg.Imply(o, "z")), ("assume({})", lambda o: o.assume({})), ("Not.reduce", lambda o: pg.Not(o).reduce())]
+    leaves = dict(leaves_of(m))
+    leaves["z"] = (0, 1)
+    for di, (dname, mk) in enumerate(makers):
+        if only is not None and di != only:
+            continue
+        case = dict(case0, derived=di)
+        try:
+            src, _ = bind(m)
+            D = mk(src)
+        except BaseException as e:
+            acc.violation(None, case, {"what": f"{dname} raised", "exc": repr(e), "model": show(m)})
+            continue
+        if is_var(D):
+            continue
+        try:
+            if D.errors():
+                # e.g. the negation of a diamond holds the shared node and its negation under ONE explicit id: not a well-defined model
+                acc.n("derived_objects_rejected_by_errors()")
+                continue
+        except BaseException as e:
+            acc.violation(None, case, {"what": f"errors() on the result of {dname} raised", "exc": repr(e), "model": show(m)})
+            continue
+        acc.state((m, dname))
+        nodes = [o for o in walk(D).values()]
+        tv = set()
+        for alpha in ref.assignments_dom(leaves, 3):
+            acc.n("traces")
+            acc.n("transitions")
+            try:
+                fresh_src, _ = bind(m)
+                res = mk(fresh_src).evaluate_propositions(dict(alpha))
+            except BaseException as e:
+                acc.violation(None, case, {"what": f"evaluate_propositions on the result of {dname} raised", "exc": repr(e), "model": show(m)})
+                break
+            memo = {}
+            bad = None
+            for o in nodes:
+                want = arith_eval_obj(o, alpha, memo)
+                got = res.get(o.id)
+                if want is None or got is None:
+                    continue
+                if got.as_tuple() != (want, want):
+                    bad = (str(o.id), want, got.as_tuple())
+                    break
+            tv.add(arith_eval_obj(D, alpha, memo))
+            if bad:
+                acc.violation(None, case, {"what": f"a node of the object returned by {dname} does not evaluate to sign*sum(children) >= value", "model": show(m),
+                                           "derived": D.to_text().split("\n"), "assignment": alpha, "node": bad[0], "arithmetic": bad[1], "evaluated": bad[2]})
+                break
+        else:
+            if len(tv) > 1:
+                acc.nontriv((m, dname))
 
 
 def leaf_models(acc):
@@ -89,6 +162,8 @@ def shards(tier):
     out += [("plain",) + s for s in families.shards_for(names, 700)]
     for mode, fam in ovr:
         out += [(mode,) + s for s in families.shards_for([fam], 400)]
+    for fam in (DERIVED_QUICK if tier == "quick" else DERIVED_THOROUGH):
+        out += [("derived",) + s for s in families.shards_for([fam], 600)]
     return out
 
 
@@ -103,6 +178,10 @@ def run_shard(desc, acc, tier):
         return
     models = families.family(fam)[lo:hi]
     for k, m in enumerate(models, start=lo):
+        if mode == "derived":
+            if k % (4 if fam.startswith("abc") else 2) == 0 or tier != "quick":      # quick: a fixed residue class of each family
+                check_derived(m, acc, fam, k)
+            continue
         check_model(m, acc, mode, fam, k)
 
 
@@ -242,6 +321,9 @@ def one(m, alpha, ovr, form, idof, acc, fam, k, mode, oi, tvals):
 
 def replay(case, acc):
     from ..runner import tuplify
+    if case.get("mode") == "derived":
+        check_derived(tuplify(case["ast"]), acc, case["fam"], case["k"], only=case.get("derived"))
+        return
     if case.get("mode") == "leaf":
         leaf_models(acc)
         return
